@@ -25,6 +25,8 @@ fn configs(tier: Tier) -> Vec<SysCfg> {
         prefix: true,
         error: true,
         adversarial: true,
+        fork: false,
+        store_call_prune: false,
         head_variants: true,
         header_sub: true,
         prune: false,
@@ -42,6 +44,7 @@ fn configs(tier: Tier) -> Vec<SysCfg> {
         oracles: Oracles { c24: false, c25: false, c38: true },
         tail_events: 40,
         max_events: 60,
+        aging: None,
     };
     let mut v = vec![
         base.clone(),
